@@ -36,7 +36,18 @@ def random_cases(rng, n):
                 v += Fraction(rng.randint(-4, 4), 8) if smooth else Fraction(rng.randint(-40, 40), 8)
                 ys.append(v)
         s = rng.choice([0.0, 0.0, 10 ** rng.uniform(-4, 2)])
-        out.append({"fn": "smooth", "x": [R(v) for v in xs], "y": [R(v) for v in ys], "s_f": s, "identity_expected": bool(affine or s == 0.0), "affine": affine})
+        # the smoothing step is requested on a fresh object or after a short history of other operations
+        pre = []
+        for _ in range(rng.choice([0, 0, 1, 2, 3])):
+            pre.append(rng.choice([
+                {"k": "scale_y", "v": R(rng.choice([3, -2, Fraction(1, 2), 5]))}, {"k": "scale_x", "v": R(rng.choice([2, Fraction(1, 2), 4]))},
+                {"k": "shift_y", "v": R(rng.choice([7, -3]))}, {"k": "shift_x", "v": R(rng.choice([10, -4]))},
+                {"k": "append", "periodic": rng.random() < 0.5}, {"k": "normalize_y", "lo": R(0), "hi": R(rng.choice([1, 10]))}]))
+        if pre and any(o["k"] == "normalize_y" for o in pre) and len(set(ys)) < 2:
+            pre = []
+        out.append({"fn": "smooth", "x": [R(v) for v in xs], "y": [R(v) for v in ys], "s_f": s, "pre": pre,
+                    # (an appended sample breaks affinity; scale / shift / normalise keep it)
+                    "identity_expected": bool(s == 0.0 or (affine and not any(o["k"] == "append" for o in pre))), "affine": affine})
     return out
 
 
@@ -67,7 +78,7 @@ def run():
         neg(live, lambda e: bump(e, "out_none"), "C16.default_condition")
     warned = sum(1 for e in evs if e.get("warned"))
     c.rule = ("seeded random series of 5..200 points (uniform and not, smooth random walks and noisy ones, affine data) with s in {0} U [1e-4, 1e2], "
-              "each run through Weaver.smooth(s), Weaver.smooth(None) vs the explicit default len(y)*var(y), to_function()(x) and "
+              "requested on a fresh Weaver or after a history of up to 3 other operations (scale / shift / append / normalise), each run through Weaver.smooth(s), Weaver.smooth(None) vs the explicit default len(y)*var(y), to_function()(x) and "
               "process.spline_smooth directly. Clauses judged by TLC: x and length unchanged, summed squared deviation <= s (+0.2%% + projection "
               "slack) on the recorded deviations, identity for s = 0 and for affine data, default condition, to_function(0) interpolates. Runs in "
               "which FITPACK warns are discarded (%d this run). The environment constraint's lemmas are model-checked on a small lattice "
